@@ -75,9 +75,9 @@ func (s Small) Sqrt(a uint64) (uint64, bool) {
 
 type BN struct{}
 
-func (BN) P() *big.Int                 { return fr.Modulus() }
-func (BN) Zero() fr.Element            { return fr.Element{} }
-func (BN) One() fr.Element             { return fr.One() }
+func (BN) P() *big.Int                        { return fr.Modulus() }
+func (BN) Zero() fr.Element                   { return fr.Element{} }
+func (BN) One() fr.Element                    { return fr.One() }
 func (BN) Add(a, b fr.Element) (r fr.Element) { r.Add(&a, &b); return }
 func (BN) Sub(a, b fr.Element) (r fr.Element) { r.Sub(&a, &b); return }
 func (BN) Mul(a, b fr.Element) (r fr.Element) { r.Mul(&a, &b); return }
